@@ -12,7 +12,7 @@ namespace AsModel
 def Core.mentionsRoot : Core → Bool
   | .root => true
   | .var _ => false
-  | .paren _ c | .method c _ _ _ | .await c _ | .named c _ _ | .unnamed c _ _ | .index c _ _ => c.mentionsRoot
+  | .paren _ c | .method c _ _ _ | .await c _ | .named c _ _ | .unnamed c _ _ _ | .index c _ _ => c.mentionsRoot
 
 /-- Occurrences of the value expression executed by a leaf template: (passing path, failing path). -/
 def Code.leafEvaluations : Code → Option (Nat × Nat)
